@@ -236,7 +236,7 @@ fn check_doc(ctx: &Ctx, cnt: &Counters, what: &str, tree: &Node, v1: AutosarVers
 fn full_child(s: &SubSpec, v: AutosarVersion) -> Option<Node> {
     let mut ctr = 0;
     let mut n = minimal_node(s.name, s.etype, v, &mut ctr)?;
-    for (an, spec, required) in s.etype.attribute_spec_iter() {
+    for (an, spec, required) in crate::common::specgraph::attribute_specs(s.etype).into_iter() {
         if required || !s.etype.find_attribute_spec(an).is_some_and(|a| v.compatible(a.version)) {
             continue;
         }
@@ -310,7 +310,7 @@ pub fn run(tier: Tier) -> i32 {
                 check_doc(&ctx, &cnt, "edge", &tree, *v1, &targets, pi % two_file_every == 0, path.len() - 1);
                 // one document per enum item with a partial version mask (attribute and element position)
                 let all: u32 = VERSIONS.iter().fold(0, |a, v| a | *v as u32);
-                for (an, spec, _) in s.etype.attribute_spec_iter() {
+                for (an, spec, _) in crate::common::specgraph::attribute_specs(s.etype).into_iter() {
                     if !s.etype.find_attribute_spec(an).is_some_and(|a| v1.compatible(a.version)) {
                         continue;
                     }
